@@ -334,7 +334,7 @@ impl Property for C17 {
         "exploration"
     }
     fn rule(&self) -> String {
-        "(a) Enumerated on sample sessions (small and 1300-byte payloads): every single-bit position and every truncation length of one sample datagram of every sealed kind and direction (denied, challenge, response, keep-alive, payload, disconnect) must fail to decode under its own key; every sample opened under another session's key, the other direction's key or another protocol id must fail; every single bit of a token's sealed part (1024 bytes), of its nonce and of its bound public fields protocol id and expiry, and opening under another key / protocol id / expiry must fail (hook: private token open), and the server must not answer a request so modified, whether it comes from an unknown address, from the address whose genuine request was just answered (handshake pending), while the handshake is pending at another address, or from the connected session's address. (b) Generated histories: several clients against a server with 1-3 slots, lossy handshakes with retries, requests repeated while connecting or connected (re-challenges), genuine requests with one flipped bit presented in any server state from their own or another address (must never be answered), denials on a full server, keep-alives, payloads of 0-1300 bytes, disconnects from both sides, timeouts; every datagram either side emits is attributed to a key by trial decryption with every key of the case, and per (emitting endpoint, key) no two different datagrams may carry the same sequence number. Non-trivial: (a) a tampered input; (b) a case in which one key sealed at least one handshake reply (denied / challenge) and at least one session packet. Distinct = hash of the decoded case.".into()
+        "(a) Enumerated on sample sessions (small and 1300-byte payloads): every single-bit position and every truncation length of one sample datagram of every sealed kind and direction (denied, challenge, response, keep-alive, payload, disconnect) must fail to decode under its own key; every sample opened under another session's key, the other direction's key or another protocol id - in particular each of the 64 ids one bit away - must fail; every single bit of a token's sealed part (1024 bytes), of its nonce and of its bound public fields protocol id and expiry, and opening under another key / protocol id / expiry must fail (hook: private token open), and the server must not answer a request so modified, whether it comes from an unknown address, from the address whose genuine request was just answered (handshake pending), while the handshake is pending at another address, or from the connected session's address. (b) Generated histories: several clients against a server with 1-3 slots, lossy handshakes with retries, requests repeated while connecting or connected (re-challenges), genuine requests with one flipped bit presented in any server state from their own or another address (must never be answered), denials on a full server, keep-alives, payloads of 0-1300 bytes, disconnects from both sides, timeouts; every datagram either side emits is attributed to a key by trial decryption with every key of the case, and per (emitting endpoint, key) no two different datagrams may carry the same sequence number. Non-trivial: (a) a tampered input; (b) a case in which one key sealed at least one handshake reply (denied / challenge) and at least one session packet. Distinct = hash of the decoded case.".into()
     }
     fn assumptions(&self) -> Vec<String> {
         vec![
@@ -350,7 +350,7 @@ impl Property for C17 {
     }
     fn enums(&self, _tier: Tier) -> Vec<(&'static str, u64)> {
         // datagram bits: sample set x (up to 1400*8 bit positions); truncations; token bits; cross-key
-        vec![("datagram_bits_small", 12 * 400 * 8), ("datagram_bits_big", 2 * 1330 * 8), ("datagram_truncations", 12 * 1330), ("token_bits", 4 * TOKEN_BITS), ("cross_open", 64)]
+        vec![("datagram_bits_small", 12 * 400 * 8), ("datagram_bits_big", 2 * 1330 * 8), ("datagram_truncations", 12 * 1330), ("token_bits", 4 * TOKEN_BITS), ("cross_open", 64), ("protocol_bits", 12 * 64 * 2)]
     }
     fn run_enum(&self, name: &str, index: u64, ctx: &mut Ctx) -> Outcome {
         match name {
@@ -429,6 +429,26 @@ impl Property for C17 {
                 let out = nw2.server_recv(0, client_addr(1), &buf[..n]);
                 if out != SrvOut::None {
                     return Err(Fail::new("token_bit_flip_accepted", format!("server (state {state}) answered a request whose token has bit {bit} ({what}) flipped: {out:?}")));
+                }
+                Ok(())
+            }
+            "protocol_bits" => {
+                // every sample datagram opened under a protocol id that differs in exactly one of its 64 bits
+                let big = index % 2 == 1;
+                let bit = (index / 2) % 64;
+                let s = (index / 128) as usize;
+                let nw = sample_world(11, big)?;
+                let samples = sealed_samples(&nw);
+                let Some(&i) = samples.get(s) else { return Ok(()) };
+                let d = &nw.pool[i];
+                let k = key_of(&nw, d).unwrap();
+                ctx.op(&(name, d.kind, bit, big));
+                ctx.nontrivial = true;
+                if !opens(&d.bytes, PROTO, &k) {
+                    return Err(Fail::new("sample_does_not_open", format!("sample datagram kind {} does not open under its own key", d.kind)));
+                }
+                if opens(&d.bytes, PROTO ^ (1u64 << bit), &k) {
+                    return Err(Fail::new("opened_under_other_key", format!("datagram kind {} sealed for protocol id {PROTO:#x} opens under {:#x} (bit {bit} differs)", d.kind, PROTO ^ (1u64 << bit))));
                 }
                 Ok(())
             }
